@@ -518,6 +518,43 @@ package hashgraph
 //@   ensures[enum] __enum(ret0, r.CreatedEvents, func(x string) bool { return r.CreatedEvents[x].Witness })
 //@   loop 1 invariant[enum] !(res == nil) && __enum(res, __visset(), func(x string) bool { return __in(x, r.CreatedEvents) && r.CreatedEvents[x].Witness })
 
+// Fame bookkeeping (C01): a witness is decided once its fame is True or False; a round is decided when it was
+// decided before (sticky) or when no witness is undecided and strictly more than two thirds of the round's
+// validators have a decided witness.
+//@ ghost func DecidedWit(r *RoundInfo, x string) bool { return __in(x, r.CreatedEvents) && r.CreatedEvents[x].Witness && r.CreatedEvents[x].Famous != common.Undefined }
+//@ ghost func UndecidedWit(r *RoundInfo, x string) bool { return __in(x, r.CreatedEvents) && r.CreatedEvents[x].Witness && r.CreatedEvents[x].Famous == common.Undefined }
+
+//@ func (r *RoundInfo) WitnessesDecided(peerSet *peers.PeerSet) bool
+//@   requires r != nil && peerSet != nil && peerSet.WF()
+//@   modifies r.decided
+//@   ensures[sticky] old(r.decided) ==> ret0
+//@   ensures[flag]   r.decided == ret0
+//@   ensures[rule]   !old(r.decided) ==> ret0 == ((forall x string :: !UndecidedWit(r, x)) && 3*__count(r.CreatedEvents, func(x string) bool { return DecidedWit(r, x) }) > 2*len(peerSet.ByPubKey))
+//@   loop 1 invariant[cnt] c == __count(__visset(), func(x string) bool { return DecidedWit(r, x) }) && (forall x string :: __vis(x) ==> !UndecidedWit(r, x)) && r.decided == old(r.decided)
+
+//@ func (r *RoundInfo) IsDecided(witness string) bool
+//@   requires r != nil
+//@   modifies nothing
+//@   ensures[rule] ret0 == DecidedWit(r, witness)
+
+//@ func (r *RoundInfo) SetFame(x string, f bool)
+//@   requires r != nil && r.CreatedEvents != nil
+//@   modifies r.CreatedEvents[*]
+//@   ensures[set]    __in(x, r.CreatedEvents) && r.CreatedEvents[x].Famous == __ite(f, common.True, common.False) && r.CreatedEvents[x].Witness == __ite(old(__in(x, r.CreatedEvents)), old(r.CreatedEvents[x].Witness), true)
+//@   ensures[others] forall y string :: y != x ==> __in(y, r.CreatedEvents) == old(__in(y, r.CreatedEvents)) && r.CreatedEvents[y] == old(r.CreatedEvents[y])
+
+//@ func (r *RoundInfo) AddCreatedEvent(x string, witness bool)
+//@   requires r != nil && r.CreatedEvents != nil
+//@   modifies r.CreatedEvents[*]
+//@   ensures[kept]   old(__in(x, r.CreatedEvents)) ==> r.CreatedEvents[x] == old(r.CreatedEvents[x])
+//@   ensures[added]  __in(x, r.CreatedEvents) && (!old(__in(x, r.CreatedEvents)) ==> r.CreatedEvents[x].Witness == witness && r.CreatedEvents[x].Famous == common.Undefined)
+//@   ensures[others] forall y string :: y != x ==> __in(y, r.CreatedEvents) == old(__in(y, r.CreatedEvents)) && r.CreatedEvents[y] == old(r.CreatedEvents[y])
+
+//@ func (r *RoundInfo) AddReceivedEvent(x string)
+//@   requires r != nil
+//@   modifies r.ReceivedEvents
+//@   ensures[appended] len(r.ReceivedEvents) == old(len(r.ReceivedEvents)) + 1 && r.ReceivedEvents[len(r.ReceivedEvents)-1] == x && (forall k int :: 0 <= k && k < old(len(r.ReceivedEvents)) ==> r.ReceivedEvents[k] == old(r.ReceivedEvents)[k])
+
 //@ ghost field Store rounds gmap[int, *RoundInfo]
 //@ ghost field Store frames gmap[int, *Frame]
 
